@@ -463,9 +463,13 @@ fn act_op(a: Act, c: i64, r: &mut Rng, fixed: Option<i64>, out: &mut Vec<i64>) {
         Act::Inc => out.extend_from_slice(&[kind, 176 + c, 96, v]),
         Act::Dec => out.extend_from_slice(&[kind, 176 + c, 97, v]),
         Act::Poll => out.extend_from_slice(&[3, c, 0, 0]),
-        Act::Noise => match r.below(3) {
+        Act::Noise => match r.below(5) {
             0 => out.extend_from_slice(&[kind, 176 + c, r.pick(&[0i64, 7, 39, 64, 95, 102, 127]), v]),
             1 => out.extend_from_slice(&[kind, 144 + c, 60, v]),
+            // non-Control-Change channel messages and system messages whose data bytes look like
+            // (N)RPN traffic
+            2 => out.extend_from_slice(&[kind, r.pick(&[128i64, 144, 160, 192, 208, 224]) + c, r.pick(&[6i64, 38, 96, 97, 98, 99, 100, 101]), v]),
+            3 => out.extend_from_slice(&[kind, r.pick(&[241i64, 242, 243]), r.pick(&[6i64, 38, 96, 98, 99, 100, 101]), v]),
             _ => out.extend_from_slice(&[0, 248, 0, 0]),
         },
     }
